@@ -209,13 +209,19 @@ def handle_imagemod(self, mod_type, match):
         handle_img_width(self, match)
 
 
+def _chr(code_point):
+    if 0xD800 <= code_point <= 0xDFFF:
+        raise ValueError("surrogate code point")
+    return chr(code_point)
+
+
 def resolve_entity(entity):
     if entity[1] == "#":
         try:
             if entity[2] == "x" or entity[2] == "X":
-                return chr(int(entity[3:-1], 16))
+                return _chr(int(entity[3:-1], 16))
             else:
-                return chr(int(entity[2:-1]))
+                return _chr(int(entity[2:-1]))
         except (ValueError, OverflowError):
             return entity
     else:
